@@ -771,12 +771,17 @@ def get_excitations(
         -1,
     )
 
+    # holes label rows of the trial's green's functions, which are indexed by the
+    # position of an orbital in the reference's occupied list (= the orbital index
+    # only for an aufbau reference)
+    pos_a, pos_b = np.cumsum(d0a) - 1, np.cumsum(d0b) - 1
+
     # fill up the arrays up to max_excitation
     for i in range(1, max_excitation + 1):
         # singe alpha excitation
         if (i, 0) in Ades:
             Ades[(i, 0)] = np.asarray(Ades[(i, 0)]).reshape(-1, i) + num_core
-            Acre[(i, 0)] = np.asarray(Acre[(i, 0)]).reshape(-1, i) + num_core
+            Acre[(i, 0)] = pos_a[np.asarray(Acre[(i, 0)]).reshape(-1, i)] + num_core
             coeff[(i, 0)] = np.asarray(coeff[(i, 0)]).reshape(
                 -1,
             )
@@ -788,7 +793,7 @@ def get_excitations(
         # singe beta excitation
         if (0, i) in Bdes:
             Bdes[(0, i)] = np.asarray(Bdes[(0, i)]).reshape(-1, i) + num_core
-            Bcre[(0, i)] = np.asarray(Bcre[(0, i)]).reshape(-1, i) + num_core
+            Bcre[(0, i)] = pos_b[np.asarray(Bcre[(0, i)]).reshape(-1, i)] + num_core
             coeff[(0, i)] = np.asarray(coeff[(0, i)]).reshape(
                 -1,
             )
@@ -802,9 +807,13 @@ def get_excitations(
             for j in range(1, max_excitation + 1):
                 if (i, j) in Ades:
                     Ades[(i, j)] = np.asarray(Ades[(i, j)]).reshape(-1, i) + num_core
-                    Acre[(i, j)] = np.asarray(Acre[(i, j)]).reshape(-1, i) + num_core
+                    Acre[(i, j)] = (
+                        pos_a[np.asarray(Acre[(i, j)]).reshape(-1, i)] + num_core
+                    )
                     Bdes[(i, j)] = np.asarray(Bdes[(i, j)]).reshape(-1, j) + num_core
-                    Bcre[(i, j)] = np.asarray(Bcre[(i, j)]).reshape(-1, j) + num_core
+                    Bcre[(i, j)] = (
+                        pos_b[np.asarray(Bcre[(i, j)]).reshape(-1, j)] + num_core
+                    )
                     coeff[(i, j)] = np.asarray(coeff[(i, j)]).reshape(
                         -1,
                     )
